@@ -414,7 +414,9 @@ def table_kind_rows(ctx, fns, rule='C15.table-kind'):
         it.isa.update({'Identifier': set(), 'Join': set(), 'Select': set(), 'Union': set(), 'NativeQuery': set()})
         raised = None
         try:
-            it.call_function(pl, [Obj('PlanJoinTSPredictorQuery'), q], {}, Env())
+            plan_ = Obj('QueryPlan', steps=[Obj('FetchDataframeStep', result=Obj('Result', ref_name='r0'))],
+                        add_step=lambda s_: (setattr(s_, 'result', Obj('Result', ref_name='r')), s_)[1])
+            it.call_function(pl, [Obj('PlanJoinTSPredictorQuery', planner=Obj('QueryPlanner', plan=plan_, default_namespace='mindsdb')), q], {}, Env())
         except Raised as r:
             raised = r.exc_name
         n += 1
